@@ -65,7 +65,8 @@ def inline(kind, n):
     if kind == "bm":
         return Bookmark(f"bm{n}")
     if kind == "frame":
-        return Frame.image_frame("Pictures/none.png", size=("1cm", "1cm"), anchor_type="as-char", name=f"f{n}")
+        # even n: a picture that exists in the package and is shared by every such frame; odd n: a dangling reference
+        return Frame.image_frame("Pictures/shared.png" if n % 2 == 0 else "Pictures/none.png", size=("1cm", "1cm"), anchor_type="as-char", name=f"f{n}")
     if kind == "field":
         return VarPageNumber()
     raise ValueError(kind)
@@ -250,6 +251,15 @@ def judge_flat(ctx, ref_parts, data, how, case):
     # content inclusion: empty paragraphs (e.g. the text:p inside a draw:image that gets inlined) are not content
     want = [x for x in want if x]
     got = [x for x in got if x]
+    # every frame keeps its image(s): in flat XML the reference becomes inline data, the element stays
+    def frame_images(r):
+        return [(f.get(odfread.q("draw:name")), sum(1 for c in f if c.tag == odfread.q("draw:image"))) for f in r.iter(odfread.q("draw:frame"))]
+
+    want_f = frame_images(odfread.parse(ref_parts["styles.xml"])) + frame_images(odfread.parse(ref_parts["content.xml"]))
+    got_f = frame_images(root)
+    ctx.check(got_f == want_f, ("C11", "flat-" + how, "frame-images-differ"),
+              f"flat XML ({how}): (frame name, number of draw:image) {[x for x in got_f if x not in want_f][:4]} ... expected as in the plain save "
+              f"{[x for x in want_f if x not in got_f][:4]}", case)
     ctx.check(got == want, ("C11", "flat-" + how, "paragraphs-differ"),
               f"flat XML ({how}) paragraphs differ from the plain save: first difference "
               f"{next(((a, b) for a, b in zip(got, want) if a != b), (len(got), len(want)))!r}", case)
@@ -280,6 +290,10 @@ def run_batch(ctx, batch, scratch):
         body.clear()
         for n, seq, gaps, cont in batch:
             body.append(wrap(make_par(seq, gaps, n, heading=cont == "h"), cont, n))
+        from lib.docmachine import PNG
+
+        doc.set_part("Pictures/shared.png", PNG)
+        doc.manifest.add_full_path("Pictures/shared.png", "image/png")
         return doc
 
     judge_document(ctx, make_doc, case, scratch)
@@ -323,7 +337,10 @@ def run_corpus_case(ctx, case, scratch):
         if src["kind"] == "template":
             doc = Document(src["name"])
         else:
-            doc = Document(io.BytesIO((corpus.samples_dir() / src["name"]).read_bytes()))
+            data = (corpus.samples_dir() / src["name"]).read_bytes()
+            if src.get("decor"):
+                data = corpus.decorate(data)  # comments and processing instructions around / inside the roots
+            doc = Document(io.BytesIO(data))
         for i, e in enumerate(case["edits"]):
             if e == "par":
                 doc.body.append(Paragraph(f"added{i}  two  blanks"))
@@ -385,6 +402,7 @@ def run_shard(ctx):
 
         srcs = [{"kind": "template", "name": t} for t in corpus.TEMPLATES]
         srcs += [{"kind": "sample", "name": p.name} for p in corpus.sample_files() if ctx.thorough or p.stat().st_size < 60_000]
+        srcs += [{"kind": "sample", "name": p.name, "decor": True} for p in corpus.sample_files() if p.stat().st_size < 30_000]
         mine = [s for i, s in enumerate(srcs) if i % ctx.nshards == ctx.shard]
         if mine:
             cases = st.fixed_dictionaries({"kind": st.just("corpus"), "source": st.sampled_from(mine),
